@@ -273,8 +273,34 @@ def check_bias(L, res):
           sat = (np.abs(exp) >= hi)
           if np.any((np.abs(got - exp) > tol + 0.51) & ~sat):
             fails.append(_fail('bias_value', f'{sub}: {got} vs {exp}', pt, sub))
+          # dequantizing the 32/64-bit codes gives back bias/scale * scale
+          with np.errstate(all='ignore'):
+            dq = np.asarray(uq.uniform_dequantize(
+                np.asarray(bp.quantized_data), bp), dtype=np.float64).ravel()
+          refdq = got * es
+          if not np.allclose(dq, refdq, rtol=1e-5, atol=1e-30):
+            fails.append(_fail('bias_dequantize', f'{sub}: {dq} vs {refdq}',
+                               pt, sub))
           res['nontrivial'] += 1
           res['hashes'].append(sub)
+  # wide codes: (q - zp) * scale must not wrap for 32/64-bit data
+  for dt, vals in ((np.int32, [2**31 - 1, -2**31, 12345]),
+                   (np.int64, [2**31 + 5, -2**40, 2**62, -7])):
+    for zp in (0, 3):
+      sub = f'wide:{np.dtype(dt).name}:{zp}'
+      pt = {'bits': 64 if dt == np.int64 else 32, 'zp': zp}
+      qp = L.qtyping.UniformQuantParams(
+          num_bits=pt['bits'], quantized_dimension=None,
+          scale=np.array([0.5], dtype=np.float32),
+          zero_point=np.array([zp], dtype=np.int32), symmetric=zp == 0)
+      q = np.array(vals, dtype=dt)
+      with np.errstate(all='ignore'):
+        dq = np.asarray(uq.uniform_dequantize(q, qp), dtype=np.float64)
+      want = (np.array(vals, dtype=np.float64) - zp) * 0.5
+      res['evals'] += 1
+      if not np.allclose(dq, want, rtol=1e-6):
+        fails.append(_fail('dequantize_wide_codes', f'{sub}: {dq} vs {want}',
+                           pt, sub))
   return fails
 
 
